@@ -127,6 +127,7 @@ def _ops():
         "transform-rewrites-one-leaf-then-raises-at-the-second": safe(lambda r, n: partial(2)().transform(r)),
         "transform-rewrites-one-leaf-then-raises-at-the-fourth": safe(lambda r, n: partial(4)().transform(r)), "transform-returns-existing-nodes": safe(lambda r, n: Unwrap().transform(r)), "duplicate": safe(lambda r, n: n.duplicate()),
         "replace": lambda r, n: n.replace(origin=n.origin), "replace-raises": safe(lambda r, n: n.replace(no_such=1)),
+        "replace-raises-late-with-another-error-class": safe(lambda r, n: n.replace(origin=None)),
         "replace-rejected-by-subclass-validation": safe(lambda r, n: n.replace(note="bad")),
         "dataclasses.replace-rejected-by-subclass-validation": safe(lambda r, n: dc.replace(n, note="bad")),
         "dataclasses.replace": lambda r, n: dc.replace(n), "detach": lambda r, n: n.detach(), "detach_self": lambda r, n: n.detach_self(),
@@ -271,7 +272,9 @@ def _registered(n: Any) -> bool:
 # target and its whole subtree ("subtree"); longest matching prefix wins
 _UNREGISTERING = {
     "detach_self": "self", "detach": "subtree", "replace": "self", "roundtrip-after-detach": "subtree", "as_obj-payload-carrying": "subtree",
-    "dataclasses.replace-rejected": "self", "replace-rejected": "self", "failed-load-after-detach_self": "self",
+    # replace(no_such=1) and replace(origin=None) raise for every class, and a replace() that raises changes
+    # nothing at all; the "rejected-by-subclass-validation" ones succeed on classes that do not validate
+    "dataclasses.replace-rejected": "self", "replace-rejected": "self", "replace-raises": "none", "failed-load-after-detach_self": "self",
 }
 
 
